@@ -329,7 +329,10 @@ class Receiver:
                 self.verdict = (1007, "text message ends inside code point")
                 return False
         if fin:
-            self.events.append(("msg", self.cur["bin"], self.cur["data"]))
+            data = self.cur["data"]
+            if self.cur["rsv1"] and getattr(self, "inflater", None) is not None:
+                data = self.inflater(data)        # permessage-deflate (RFC 7692 7.2.2), context carried over from earlier compressed messages
+            self.events.append(("msg", self.cur["bin"], data))
             self.inside = False
             self.cur = None
         return True
